@@ -85,6 +85,10 @@ type Run struct {
 	Err                           string
 	tableBy, rowBy, colBy, residu *benchproc.Projection
 	stream                        []resRec
+	raws                          []rawRes
+	builder                       *benchtab.Builder // kept for the in-process perturbation runs (C15)
+	opts                          benchtab.TableOpts
+	exprs                         []string // -table, -row, -col, -ignore as given
 	tables                        *benchtab.Tables
 	units                         benchfmt.UnitMetadataMap
 	conf                          float64
@@ -161,6 +165,7 @@ func runPipeline(d Defaults, flagArgs []string) *Run {
 		return fail(fmt.Errorf("-format must be text or csv"))
 	}
 	run.tableBy, run.rowBy, run.colBy, run.residu = tableBy, rowBy, colBy, residue
+	run.exprs = []string{*flagTable, *flagRow, *flagCol, *flagIgnore}
 	run.conf, run.thr = *flagConfidence, thresholds
 
 	stat := benchtab.NewBuilder(tableBy, rowBy, colBy, residue)
@@ -176,6 +181,7 @@ func runPipeline(d Defaults, flagArgs []string) *Run {
 				}
 				continue
 			}
+			run.raws = append(run.raws, snapshotRaw(rec))
 			stat.Add(rec)
 			// Record what Add saw, through the public API. Projecting again is
 			// idempotent: the keys are already interned.
@@ -191,11 +197,13 @@ func runPipeline(d Defaults, flagArgs []string) *Run {
 		return fail(err)
 	}
 	run.units = files.Units()
-	run.tables = stat.ToTables(benchtab.TableOpts{
+	run.builder = stat
+	run.opts = benchtab.TableOpts{
 		Confidence: *flagConfidence,
 		Thresholds: &run.thr,
 		Units:      files.Units(),
-	})
+	}
+	run.tables = stat.ToTables(run.opts)
 	var text, csv, csvErr bytes.Buffer
 	if err := run.tables.ToText(&text, false); err != nil {
 		return fail(err)
